@@ -102,8 +102,8 @@ def build_tree(key):
     olds = sorted((os.path.getmtime(os.path.join(SCRATCH_ROOT, d)), d) for d in os.listdir(SCRATCH_ROOT))
     now = time.time()
     for i, (mt, d) in enumerate(olds):
-        # keep recent trees (other checks may be using them); never more than 12
-        if now - mt > 40 * 60 or i < len(olds) - 12:
+        # keep recent trees (other checks may be using them); never more than 40
+        if now - mt > 3 * 3600 or i < len(olds) - 40:
             shutil.rmtree(os.path.join(SCRATCH_ROOT, d), ignore_errors=True)
     shutil.rmtree(root, ignore_errors=True)
     os.makedirs(repo)
